@@ -25,6 +25,12 @@ package digest
 //@   trusted
 //@   modifies nothing
 //@   ensures fresh(base(result)) && dgHash(base(result)) == 1
+//@   ensures [at-least-an-md5] len(result) >= 16 && be64(elems(result), first(result)) == hashOf(d.value)
+// hashOf(digest): the first 64 bits of the object's hash, big-endian (what the
+// sharding layer feeds its selector, C12); be64: big-endian decoding as an
+// uninterpreted function of (array contents, position of the first byte).
+//@ ufunc hashOf(str) u64
+//@ ufunc be64(intarr, int) u64
 //@ func (Digest).NewHasher
 //@   trusted
 //@   modifies nothing
@@ -44,9 +50,21 @@ package digest
 //@ func GetDifferenceAndIntersection
 //@   trusted
 //@   modifies nothing
-//@   ensures base(result0.digests) == gdiOnlyA(base(setA.digests), base(setB.digests))
-//@   ensures base(result1.digests) == gdiBoth(base(setA.digests), base(setB.digests))
-//@   ensures base(result2.digests) == gdiOnlyB(base(setA.digests), base(setB.digests))
+//@   ensures [function-of-its-operands-a] base(result0.digests) == gdiOnlyA(base(setA.digests), base(setB.digests))
+//@   ensures [function-of-its-operands-both] base(result1.digests) == gdiBoth(base(setA.digests), base(setB.digests))
+//@   ensures [function-of-its-operands-b] base(result2.digests) == gdiOnlyB(base(setA.digests), base(setB.digests))
+// Under C20 its body is checked: nothing lost, nothing invented, inputs untouched.
+//@   opt contents Digest
+//@   ensures [nothing-lost-nothing-invented] len(result0.digests) + len(result1.digests) == len(setA.digests)
+//@         && len(result2.digests) + len(result1.digests) == len(setB.digests)
+//@   ensures [inputs-untouched] (forall k :: 0 <= k && k < len(setA.digests) ==> unchanged(setA.digests[k].value))
+//@         && (forall k :: 0 <= k && k < len(setB.digests) ==> unchanged(setB.digests[k].value))
+//@   loop 0 invariant len(onlyA.digests) + len(both.digests) + len(a) == len(setA.digests)
+//@         && len(onlyB.digests) + len(both.digests) + len(b) == len(setB.digests)
+//@   loop 0 invariant (base(onlyA.digests) == 0 || fresh(base(onlyA.digests))) && (base(both.digests) == 0 || fresh(base(both.digests)))
+//@         && (base(onlyB.digests) == 0 || fresh(base(onlyB.digests)))
+//@   loop 0 invariant (forall k :: 0 <= k && k < len(setA.digests) ==> unchanged(setA.digests[k].value))
+//@         && (forall k :: 0 <= k && k < len(setB.digests) ==> unchanged(setB.digests[k].value))
 
 // ExistenceCache as seen by its user (C17): which set was filtered, what came
 // back, and what was added. Its expiry logic (clock, eviction set) is not
@@ -54,25 +72,62 @@ package digest
 //@ ghost ecRemoveRes(ref) int
 //@ ghost ecAdds(ref) int
 //@ ghost ecAddArg(ref) int
+// Under C17 the bodies are checked too. An object is hidden from the backend
+// (left out of RemoveExisting's result) only if the cache holds an entry for
+// its key that was stamped no longer ago than the configured duration; every
+// other digest is passed on as given; Add stamps entries with the current
+// reading of the clock and with nothing else (never a later time).
+//@ ufunc dgKeyF(str, int) str
+//@ func (Digest).GetKey
+//@   trusted
+//@   modifies nothing
+//@   ensures result == dgKeyF(d.value, format)
 //@ func (*ExistenceCache).RemoveExisting
 //@   trusted
-//@   modifies ecRemoveRes(ec)
+//@   modifies ecRemoveRes(ec), evTouches(ec.evictionSet)
 //@   ensures ecRemoveRes(ec) == base(result.digests)
+//@   requires [own-lock-not-held] held(addr(ec.lock)) == 0
+//@   exitghost ecRemoveRes(ec) := base(result.digests)
+//@   callrequires Touch [hidden-only-if-confirmed-within-the-duration] has(ec.insertionTimes, arg1) && arg1 == dgKeyF(d.value, ec.keyFormat)
+//@         && tns(mapget(ec.insertionTimes, arg1).wall, mapget(ec.insertionTimes, arg1).ext) >= tns(now.wall, now.ext) - ec.cacheDuration
+//@   callrequires (SetBuilder).Add [everything-else-is-asked-about-as-given] arg1.value == d.value && arg0.digests == missing.digests
+//@   ensures [every-digest-hidden-or-asked-about] evTouches(ec.evictionSet) - old(evTouches(ec.evictionSet)) + sbAdds(missing.digests) == len(digests.digests)
+//@   loop 0 invariant -1 <= rangeindex && rangeindex < len(digests.digests) && held(addr(ec.lock)) == 2
+//@   loop 0 invariant unchanged(ec.evictionSet) && unchanged(ec.cacheDuration) && unchanged(ec.keyFormat)
+//@   loop 0 invariant evTouches(ec.evictionSet) - old(evTouches(ec.evictionSet)) + sbAdds(missing.digests) == rangeindex + 1
 //@ func (*ExistenceCache).Add
 //@   trusted
 //@   modifies ecAdds(ec), ecAddArg(ec)
 //@   ensures ecAdds(ec) == old(ecAdds(ec)) + 1 && ecAddArg(ec) == base(digests.digests)
+//@   requires [own-lock-not-held] held(addr(ec.lock)) == 0
+//@   exitghost ecAdds(ec) := ecAdds(ec) + 1
+//@   exitghost ecAddArg(ec) := base(digests.digests)
+//@   ensures [entries-are-stamped-now-or-left-alone] forall k str :: has(ec.insertionTimes, k) ==>
+//@         (tns(mapget(ec.insertionTimes, k).wall, mapget(ec.insertionTimes, k).ext) == tns(now.wall, now.ext)
+//@             || (old(has(ec.insertionTimes, k))
+//@                 && tns(mapget(ec.insertionTimes, k).wall, mapget(ec.insertionTimes, k).ext) == old(tns(mapget(ec.insertionTimes, k).wall, mapget(ec.insertionTimes, k).ext))))
+//@   loop 0 invariant -1 <= rangeindex && held(addr(ec.lock)) == 2 && unchanged(ec.evictionSet) && unchanged(ec.insertionTimes)
+//@   loop 0 invariant forall k str :: has(ec.insertionTimes, k) ==>
+//@         (tns(mapget(ec.insertionTimes, k).wall, mapget(ec.insertionTimes, k).ext) == tns(now.wall, now.ext)
+//@             || (old(has(ec.insertionTimes, k))
+//@                 && tns(mapget(ec.insertionTimes, k).wall, mapget(ec.insertionTimes, k).ext) == old(tns(mapget(ec.insertionTimes, k).wall, mapget(ec.insertionTimes, k).ext))))
 
 // Resource name parsers as seen by the ByteStream server (C14): functions of
 // the resource name; their grammar is not verified here (trusted, C20).
 //@ ufunc rcompressor(str) int
+// (Under C20 their bodies are checked for panics: the loop invariants below
+// keep enough components behind the keyword that ends the instance name.)
 //@ func NewDigestFromByteStreamReadPath
 //@   trusted
 //@   modifies nothing
-//@   ensures result1 == rcompressor(path)
+//@   ensures [compressor-is-a-function-of-the-name] result1 == rcompressor(path)
+//@   loop 0 invariant 0 <= split && split <= len(fields) - 3
+//@   loop 0 invariant forall i :: 0 <= i && i < len(fields) ==> len(fields[i]) >= 1
 //@ func NewDigestFromByteStreamWritePath
 //@   trusted
 //@   modifies nothing
+//@   loop 0 invariant 0 <= split && split <= len(fields) - 5
+//@   loop 0 invariant forall i :: 0 <= i && i < len(fields) ==> len(fields[i]) >= 1
 
 // ---- InstanceNameTrie (C19). Decided here without a model of the key space:
 // a lookup never loses a match it has already seen (the root's value is the
@@ -89,7 +144,7 @@ package digest
 //@   loop 0 invariant n != nil && (lastValue >= 0 || lastValue == old(it.root.value)) && unchanged(it.root.value)
 //@ func (*InstanceNameTrie).GetExact
 //@   ensures [no-value-no-match] result >= 0 || result == -1 || result == old(it.root.value)
-//@   loop 0 invariant n != nil && unchanged(it.root.value)
+//@   loop 0 invariant unchanged(it.root.value)
 //@ func (*InstanceNameTrie).ContainsPrefix
 //@   ensures [root-prefix-always-matches] old(it.root.value) >= 0 ==> result
 //@   loop 0 invariant n != nil
@@ -99,6 +154,10 @@ package digest
 //@ iface InstanceNamePatcher.PatchDigest
 //@   modifies nothing
 //@   ensures result.value == patchD(self, d.value)
+//@ ufunc unpatchD(ref, str) str
+//@ iface InstanceNamePatcher.UnpatchDigest
+//@   modifies nothing
+//@   ensures result.value == unpatchD(self, d.value)
 
 // ---- Set.PartitionByInstanceName (C20): the partitions are built from
 // capacity-limited windows of the input, so growing a partition copies it
@@ -117,10 +176,16 @@ package digest
 
 // The chain of ancestor digests, least specific first (trusted: its
 // construction is string processing, C20): never empty.
+// chainLen(d): number of names in the ancestor chain of digest d (itself
+// included); chainAt(d, j): the j-th digest of the chain.
+//@ ufunc chainLen(str) int
+//@ ufunc chainAt(str, int) str
 //@ func (Digest).GetDigestsWithParentInstanceNames
 //@   trusted
 //@   modifies nothing
 //@   ensures len(result) >= 1 && fresh(base(result))
+//@   ensures len(result) == chainLen(d.value) && result[len(result) - 1].value == d.value
+//@   ensures forall j :: 0 <= j && j < len(result) ==> result[j].value == chainAt(d.value, j)
 
 // ---- as seen by the completeness checker (C13): trusted helpers.
 //@ func (Function).NewDigestFromProto
@@ -140,9 +205,12 @@ package digest
 //@   trusted
 //@   modifies sbAdds(sb.digests)
 //@   ensures sbAdds(sb.digests) == old(sbAdds(sb.digests)) + 1 && result.digests == sb.digests
+// sbSet(m, n): the set a builder with map m yields after n additions.
+//@ ufunc sbSet(ref, int) ref
 //@ func (SetBuilder).Build
 //@   trusted
 //@   modifies nothing
+//@   ensures base(result.digests) == sbSet(sb.digests, sbAdds(sb.digests))
 //@ func (Set).First
 //@   inline
 //@ func (Digest).GetDigestFunction
